@@ -51,7 +51,8 @@ Derived(xo, yo, so, ko, no, addign) ==
         r3 == IF so = "override" THEN [start |-> Rule(Seq2(Opt(Ref("Y")), Ref("X")))]
               ELSE IF so = "super" THEN [start |-> Rule(Seq2(<<"super", "start">>, Opt(Str(<<33>>))))] ELSE <<>>
         r4 == IF ko = "rule" THEN [K |-> Rule(Seq2(Ref("X"), Ref("X")))] ELSE <<>>
-        r5 == IF no = "new" THEN [N |-> Rule(Ch2(Ref("Deep"), Seq2(Ref("X"), Ref("Z"))))]
+        \* (a new rule of the derived level that refers to inherited rules AND to the inherited class K by name)
+        r5 == IF no = "new" THEN [N |-> Rule(Ch2(Ref("Deep"), Seq3(Ref("X"), Ref("Z"), Opt(Ref("K")))))]
               ELSE IF no = "tsuper"
               THEN [T |-> RuleP(<<"p">>, Seq2(Str(<<36>>), <<"scall", "T", <<Pos(Ref("p"))>>>>)),
                     \* a rule of this level that goes through the inherited U (and so through T and X, late-bound)
